@@ -118,8 +118,26 @@ where
 
     let shard = self.shared.store.get_shard(&key_for_event);
 
-    self.shard_guard.insert(self.key, new_cache_entry);
+    let old_entry = self.shard_guard.insert(self.key, new_cache_entry);
     drop(self.shard_guard);
+
+    // The slot can hold an expired entry that was not collected yet (`entry()`
+    // reports it as vacant): release it the way `insert` releases an overwritten entry.
+    if let Some(entry) = old_entry {
+      if let Some(wheel) = &shard.timer_wheel {
+        if let Some(handle) = &entry.ttl_timer_handle {
+          wheel.cancel(handle);
+        }
+        if let Some(handle) = &entry.tti_timer_handle {
+          wheel.cancel(handle);
+        }
+      }
+      self
+        .shared
+        .metrics
+        .current_cost
+        .fetch_sub(entry.cost(), std::sync::atomic::Ordering::Relaxed);
+    }
 
     let _ = shard
       .event_buffer_tx
